@@ -9,6 +9,9 @@ RULE = ("seeded Arrays as in C14 (rank 1-6, every HDF5-representable dtype incl.
         "and the array read back; compared with the Lean codec and with the direct round-trip predicate; "
         "labels / units / names up to 600 bytes with long common prefixes; every third case changes one more calibration AFTER the "
         "first save and saves the same object a second time (body and read-back predicted by the model and checked directly); "
+        "every eighth case holds its dim vectors in NARROW numpy dtypes (float32 / float16 ramps with non-dyadic steps, "
+        "decreasing unsigned ramps, small ints): mixed-width arithmetic is numpy's, so these are decided by the direct "
+        "round-trip predicate alone, not by the one-arithmetic Lean codec; "
         "non-trivial = at least one user-supplied dim vector; distinct by recipe hash")
 
 
@@ -17,13 +20,15 @@ def cases(tier, seed):
     for i in range(n):
         r = common.case_rng(seed, PID, i)
         c = arrays.gen_case(r, allow_bad=False)
+        if i % 8 == 5:
+            c = arrays.narrow_dims(r, c)           # directed: dim vectors in narrow numpy dtypes (oracle-decided)
         yield c
 
 
 def run_both(drv, case):
     io, objs = arrays.run_impl(case)
     LAST_LEAK[0] = arrays.LEAK[0]
-    mo = arrays.model_obs(drv, case) if drv is not None else None
+    mo = arrays.model_obs(drv, case) if drv is not None and not case.get("narrow") else None
     return arrays.canon(io), (arrays.canon(mo) if mo is not None else None)
 
 
@@ -97,6 +102,8 @@ def nontrivial(case):
 
 def classify(case, obs):
     out = [f"dtype_{case['dtype']}", f"layout_{case['layout']}"]
+    if case.get("narrow"):
+        out += ["narrow_dim_dtype_" + d["dt"] for d in case["dims"]]
     if isinstance(obs.get("body"), list):
         for k, o in obs["body"]:
             if k.startswith("dim") and isinstance(o["v"], dict) and "nums" in o["v"]:
